@@ -93,6 +93,62 @@ func (r *Recorder) TargetSucceeded(l *label.Label, changed bool) {
 func (r *Recorder) RunDone(err error)         { r.add(Event{Kind: "RunDone", Err: errStr(err)}) }
 func (r *Recorder) FileChanged(l *label.Label) {}
 
+// equalShared is Starlark equality for environments that share sub-values heavily (every helper function appears once,
+// however many functions call it): a pair of dicts or lists that has been compared, or is being compared, is not compared
+// again, so the cost is linear in the size of the graph and self-containing values terminate.
+func equalShared(x, y starlark.Value, memo map[[2]starlark.Value]bool) bool {
+	switch xv := x.(type) {
+	case *starlark.Dict:
+		yv, ok := y.(*starlark.Dict)
+		if !ok || xv.Len() != yv.Len() {
+			return false
+		}
+		k := [2]starlark.Value{xv, yv}
+		if r, ok := memo[k]; ok {
+			return r
+		}
+		memo[k] = true
+		for _, kv := range xv.Items() {
+			w, has, _ := yv.Get(kv[0])
+			if !has || !equalShared(kv[1], w, memo) {
+				memo[k] = false
+				return false
+			}
+		}
+		return true
+	case *starlark.List:
+		yv, ok := y.(*starlark.List)
+		if !ok || xv.Len() != yv.Len() {
+			return false
+		}
+		k := [2]starlark.Value{xv, yv}
+		if r, ok := memo[k]; ok {
+			return r
+		}
+		memo[k] = true
+		for i := 0; i < xv.Len(); i++ {
+			if !equalShared(xv.Index(i), yv.Index(i), memo) {
+				memo[k] = false
+				return false
+			}
+		}
+		return true
+	case starlark.Tuple:
+		yv, ok := y.(starlark.Tuple)
+		if !ok || len(xv) != len(yv) {
+			return false
+		}
+		for i := range xv {
+			if !equalShared(xv[i], yv[i], memo) {
+				return false
+			}
+		}
+		return true
+	}
+	eq, err := starlark.EqualDepth(x, y, 1000)
+	return err == nil && eq
+}
+
 // differingKeys recomputes, from the Old()/New() dicts of the delivered diff, the set of
 // top-level keys whose values differ (in the order of appearance in old then new).
 func differingKeys(d diff.ValueDiff) []string {
@@ -108,8 +164,7 @@ func differingKeys(d diff.ValueDiff) []string {
 		nv, has, _ := nd.Get(kv[0])
 		differs := !has
 		if has {
-			eq, err := starlark.EqualDepth(kv[1], nv, 1000)
-			differs = err != nil || !eq
+			differs = !equalShared(kv[1], nv, map[[2]starlark.Value]bool{})
 		}
 		if differs && !seen[k] {
 			seen[k] = true
